@@ -4406,3 +4406,179 @@ func ruleSnoopActsOnItsLevel(r *Run, rule string) {
 		}
 	}
 }
+
+// rulePresenceGuardsSameCache (R06.19 / R05.22): in a memory system with several data caches, a
+// presence test and the operation it guards concern the SAME cache: after `if present-in-X`
+// the first cache operation of the governed branch is on X; after `if present-in-X { leave }`
+// (or `if !present-in-X { … } else`) the first cache operation that follows is on X (a line is
+// inserted into the cache it was found absent from, read from the cache it was found in).
+func rulePresenceGuardsSameCache(r *Run, rule string) {
+	w := r.W
+	for _, v := range variants(w) {
+		if v.pkg == nil || !v.pipelined() {
+			continue
+		}
+		info := v.info
+		// cache fields directly operated on by a node (no descent into callees)
+		directCaches := func(n ast.Node) []*types.Var {
+			var out []*types.Var
+			ast.Inspect(n, func(k ast.Node) bool {
+				call, ok := k.(*ast.CallExpr)
+				if !ok {
+					return true
+				}
+				sel, ok := call.Fun.(*ast.SelectorExpr)
+				if !ok || !isCompType(info.TypeOf(sel.X), "LRUCache") {
+					return true
+				}
+				if fs, ok := ast.Unparen(sel.X).(*ast.SelectorExpr); ok {
+					if s := info.Selections[fs]; s != nil && s.Kind() == types.FieldVal {
+						out = append(out, s.Obj().(*types.Var))
+					}
+				}
+				return true
+			})
+			return out
+		}
+		// helper -> the one cache it operates on
+		helperCache := map[*types.Func]*types.Var{}
+		nCaches := map[*types.Var]bool{}
+		for _, f := range v.pkg.Syntax {
+			for _, d := range f.Decls {
+				fd, ok := d.(*ast.FuncDecl)
+				if !ok || fd.Body == nil {
+					continue
+				}
+				cs := directCaches(fd.Body)
+				uniq := map[*types.Var]bool{}
+				for _, c := range cs {
+					uniq[c] = true
+					nCaches[c] = true
+				}
+				if len(uniq) == 1 {
+					if fn, ok := info.Defs[fd.Name].(*types.Func); ok {
+						helperCache[fn] = cs[0]
+					}
+				}
+			}
+		}
+		if len(nCaches) < 2 {
+			continue
+		}
+		// the cache an expression/statement operates on first (direct op or a helper call), in source order
+		firstCache := func(nodes []ast.Node) *types.Var {
+			var best *types.Var
+			var bestPos token.Pos
+			for _, n := range nodes {
+				ast.Inspect(n, func(k ast.Node) bool {
+					call, ok := k.(*ast.CallExpr)
+					if !ok {
+						return true
+					}
+					var c *types.Var
+					if sel, ok := call.Fun.(*ast.SelectorExpr); ok && isCompType(info.TypeOf(sel.X), "LRUCache") {
+						if fs, ok := ast.Unparen(sel.X).(*ast.SelectorExpr); ok {
+							if s := info.Selections[fs]; s != nil && s.Kind() == types.FieldVal {
+								c = s.Obj().(*types.Var)
+							}
+						}
+					} else if fn, ok := typeutil.Callee(info, call).(*types.Func); ok {
+						c = helperCache[fn]
+					}
+					if c != nil && (best == nil || call.Pos() < bestPos) {
+						best, bestPos = c, call.Pos()
+					}
+					return true
+				})
+			}
+			return best
+		}
+		presenceOf := func(e ast.Expr) (*types.Var, bool) { // cache probed, negated?
+			neg := false
+			e = ast.Unparen(e)
+			if u, ok := e.(*ast.UnaryExpr); ok && u.Op == token.NOT {
+				neg = true
+				e = ast.Unparen(u.X)
+			}
+			call, ok := e.(*ast.CallExpr)
+			if !ok {
+				return nil, false
+			}
+			fn, ok := typeutil.Callee(info, call).(*types.Func)
+			if !ok || fn.Pkg() != v.pkg.Types {
+				return nil, false
+			}
+			sig := fn.Type().(*types.Signature)
+			if sig.Results().Len() != 1 || typeName(sig.Results().At(0).Type()) != "bool" {
+				return nil, false
+			}
+			return helperCache[fn], neg
+		}
+		for _, f := range v.pkg.Syntax {
+			for _, d := range f.Decls {
+				fd, ok := d.(*ast.FuncDecl)
+				if !ok || fd.Body == nil {
+					continue
+				}
+				n := 0
+				var walk func(list []ast.Stmt)
+				walk = func(list []ast.Stmt) {
+					for i, st := range list {
+						switch x := st.(type) {
+						case *ast.IfStmt:
+							if c, neg := presenceOf(x.Cond); c != nil {
+								var governed []ast.Node
+								switch {
+								case !neg && (!terminates(x.Body.List) || firstCache([]ast.Node{x.Body}) != nil):
+									governed = []ast.Node{x.Body}
+								case !neg && terminates(x.Body.List):
+									for _, nx := range list[i+1:] {
+										governed = append(governed, nx)
+									}
+								case neg && x.Else != nil:
+									governed = []ast.Node{x.Else}
+								case neg && terminates(x.Body.List):
+									for _, nx := range list[i+1:] {
+										governed = append(governed, nx)
+									}
+								}
+								if fc := firstCache(governed); fc != nil {
+									n++
+									r.check(fc == c, rule, fmt.Sprintf("%s.%s:presence-guard#%d", v.rel, declName(fd), n), x.Pos(), "the presence test concerns cache %s and the first cache operation it governs is on %s", c.Name(), fc.Name())
+								}
+							}
+							walk(x.Body.List)
+							if e, ok := x.Else.(*ast.BlockStmt); ok {
+								walk(e.List)
+							}
+							if e, ok := x.Else.(*ast.IfStmt); ok {
+								walk([]ast.Stmt{e})
+							}
+						case *ast.BlockStmt:
+							walk(x.List)
+						case *ast.ForStmt:
+							walk(x.Body.List)
+						case *ast.RangeStmt:
+							walk(x.Body.List)
+						case *ast.ReturnStmt, *ast.ExprStmt, *ast.AssignStmt:
+							ast.Inspect(x, func(k ast.Node) bool {
+								if fl, ok := k.(*ast.FuncLit); ok {
+									walk(fl.Body.List)
+									return false
+								}
+								return true
+							})
+						case *ast.SwitchStmt:
+							for _, cc := range x.Body.List {
+								if c2, ok := cc.(*ast.CaseClause); ok {
+									walk(c2.Body)
+								}
+							}
+						}
+					}
+				}
+				walk(fd.Body.List)
+			}
+		}
+	}
+}
